@@ -979,14 +979,16 @@ impl Transport for LocalTransport {
     }
 }
 
-/// Break a destination hard link that the source does not share
+/// Break a destination hard link before rewriting the file in place
 ///
-/// Rewriting `dest` in place would also rewrite every other name of its inode.
-/// When the source file has a single name, those other destination names are
-/// unrelated files (e.g. the link was broken in the source since the last sync
-/// with -H), so `dest` is replaced rather than written through.
-fn break_unshared_hard_link(source: &Path, dest: &Path) {
-    if has_hard_links(dest) && !has_hard_links(source) {
+/// Rewriting `dest` in place would also rewrite every other name of its inode. Those
+/// other names may be unrelated files by now (the link was broken, or the names were
+/// regrouped, in the source since the last sync with -H) and may not even be part of
+/// this run, so `dest` is replaced rather than written through. Names that are still
+/// members of the same source group are re-linked by the hard-link coordination of
+/// the transfer (with -H every other member is removed and linked to the first one).
+fn break_unshared_hard_link(_source: &Path, dest: &Path) {
+    if has_hard_links(dest) {
         if let Ok(meta) = fs::symlink_metadata(dest) {
             if meta.is_file() {
                 let _ = fs::remove_file(dest);
